@@ -7,7 +7,7 @@ use libpna::*;
 use rand::Rng;
 use serde_json::json;
 
-const NAMES: [&str; 18] = ["a.txt", "b b.txt", "dir/a.txt", "dir/ü n.bin", "dir/sub/d.txt", "e", "[x].txt", "st*r.dat", "q?.md", "dir/sub/deep/er/f", "日本/語.txt", "tab\tname", "dir2/only", "Z", "a.txt.bak", "dir/sub/e", "notes{1}.md", "dir/{x}"];
+const NAMES: [&str; 19] = ["", "a.txt", "b b.txt", "dir/a.txt", "dir/ü n.bin", "dir/sub/d.txt", "e", "[x].txt", "st*r.dat", "q?.md", "dir/sub/deep/er/f", "日本/語.txt", "tab\tname", "dir2/only", "Z", "a.txt.bak", "dir/sub/e", "notes{1}.md", "dir/{x}"];
 const PATTERNS: [&str; 20] = ["*.txt", "dir/*", "**/*.txt", "a.txt", "dir/sub/**", "nomatch*", "*", "dir/**", "e", "\\[x\\].txt", "?", "dir2/*",
     "{a.txt,e}", "dir/{a.txt,sub/d.txt}", "st\\*r.dat", "notes\\{1\\}.md", "dir/sub/{d.txt,e}", "{Z,dir2/only}", "dir/\\{x\\}", "q\\?.md"];
 
@@ -135,7 +135,7 @@ pub fn list(ctx: &mut Ctx) {
                         let lines: Vec<&str> = text.split('\n').filter(|l| !l.is_empty()).collect();
                         let names_listed: Vec<String> = lines.iter().map(|l| l.split(" -> ").next().unwrap().trim_end_matches(['/', '@']).to_string()).collect();
                         let want: Vec<String> = shown.iter().map(|(_, e)| e.name.clone()).collect();
-                        if !want.iter().any(|n| n.contains('\n')) && names_listed != want && !classify {
+                        if !want.iter().any(|n| n.contains('\n') || n.is_empty()) && names_listed != want && !classify {
                             ctx.violation("C17", "plain listing differs from the library's entries (filtered by the same patterns)", json!({"case":attrs,"listed":names_listed,"library":want}));
                         }
                     }
@@ -160,7 +160,7 @@ pub fn list(ctx: &mut Ctx) {
                     // long: one table row per entry, the row ends with the name (and link target)
                     let text = strip_ansi(&String::from_utf8_lossy(&r.stdout));
                     let lines: Vec<&str> = text.lines().filter(|l| !l.trim().is_empty()).collect();
-                    let simple = shown.iter().all(|(_, e)| !e.name.contains('\n') && !e.name.contains('\t'));
+                    let simple = shown.iter().all(|(_, e)| !e.name.contains('\n') && !e.name.contains('\t') && !e.name.is_empty());
                     if simple {
                         if lines.len() != shown.len() {
                             ctx.violation("C17", "long listing has a different number of rows than the library has entries", json!({"case":attrs,"rows":lines.len(),"library":shown.len()}));
@@ -180,7 +180,7 @@ pub fn list(ctx: &mut Ctx) {
                 let text = String::from_utf8_lossy(&r.stdout).to_string();
                 let cnt = text.split('\n').filter(|l| !l.is_empty()).count();
                 let normal = rows.iter().filter(|r| !r.0).count();
-                if cnt != normal && !rows.iter().any(|r| r.1.name.contains('\n')) { ctx.violation("C17", "without --solid the listing does not omit exactly the entries held in solid blocks", json!({"case":attrs,"listed":cnt,"normal_entries":normal})); }
+                if cnt != normal && !rows.iter().any(|r| r.1.name.contains('\n') || r.1.name.is_empty()) { ctx.violation("C17", "without --solid the listing does not omit exactly the entries held in solid blocks", json!({"case":attrs,"listed":cnt,"normal_entries":normal})); }
             }
             // ---- extract with the same patterns produces the same set
             if _round == 0 {
@@ -218,7 +218,7 @@ pub fn list(ctx: &mut Ctx) {
                                 (other, k) => ctx.violation("C17", "extracted object has a different kind than the entry", json!({"case":attrs,"entry":e.name,"kind":k,"found":format!("{:?}", other.map(|_| "other"))})),
                             }
                         }
-                    } else if !xr.ok() && !dup && !prefix_conflict && sel_all.iter().all(|e| e.kind != 3) {
+                    } else if !xr.ok() && !dup && !prefix_conflict && sel_all.iter().all(|e| e.kind != 3 && !e.name.is_empty()) {
                         ctx.violation("C17", "`pna extract` failed on a valid archive", json!({"case":attrs,"run":xr.brief()}));
                     }
                 }
